@@ -523,3 +523,36 @@ def normal_form(fn, dual=False, drop_self_attrs=(), abstract_slot=False, sort_in
 def text_diff(a_text, b_text, n=1, limit=14):
     out = list(difflib.unified_diff(a_text.splitlines(), b_text.splitlines(), lineterm='', n=n))
     return [l for l in out if not l.startswith(('---', '+++'))][:limit]
+
+
+def guards_to_chain(fnode):
+    """guard clauses to an if/elif/else chain (on a copy; meaning unchanged):
+         if A: X; return r                    if A: X; return r
+         if B: Y; return s          ->        elif B: Y; return s
+         Z                                    else: Z
+       applied to every block, innermost first: a statement `if T: ...<ends in return/raise/continue/break>` without else takes the rest of its block
+       as its else-arm."""
+    import copy
+    fn = copy.deepcopy(fnode)
+
+    def ends(body):
+        return bool(body) and isinstance(body[-1], (ast.Return, ast.Raise, ast.Continue, ast.Break))
+
+    def block(stmts):
+        stmts = list(stmts)
+        for st in stmts:
+            for fld in ('body', 'orelse', 'finalbody'):
+                b = getattr(st, fld, None)
+                if isinstance(b, list) and b and isinstance(b[0], ast.stmt):
+                    setattr(st, fld, block(b))
+            for h in getattr(st, 'handlers', []) or []:
+                h.body = block(h.body)
+        for k in range(len(stmts) - 1, -1, -1):
+            st = stmts[k]
+            if isinstance(st, ast.If) and not st.orelse and ends(st.body) and stmts[k + 1:]:
+                st.orelse = stmts[k + 1:]
+                stmts = stmts[:k + 1]
+        return stmts
+    fn.body = block(fn.body)
+    ast.fix_missing_locations(fn)
+    return fn
